@@ -65,6 +65,16 @@ def run(tier, seed, args):
             if ok != expect_ok:
                 raise vlib.ToolError(f"CrashSpec: protocol '{order}' expected {'to hold' if expect_ok else 'to be violated'} but TLC says otherwise")
             v.add(states=r["distinct"], transitions=r["generated"])
+    # re-finalizing a finalized file: never a mixture of the two versions (RefinalizeSpec; "in_place" is seeded change C15-D)
+    for mode, nd, nx, expect_ok in (("append", 0, 1, True), ("append", 2, 3, True), ("in_place_header_first", 2, 3, True), ("in_place", 2, 3, False)):
+        cfg = os.path.join(wd, f"refin_{mode}_{nd}_{nx}.cfg")
+        vlib.write_cfg(cfg, spec="Spec", constants={"NData": nd, "NXml": nx, "Mode": f'"{mode}"'}, invariants=["NeverMixed"])
+        r = vlib.tlc_mc("RefinalizeSpec", cfg, os.path.join(wd, f"refin_{mode}_{nd}_{nx}.out"), workers=2, timeout=300)
+        ok = r["violated"] is None
+        mc.append({"model": "RefinalizeSpec", "mode": mode, "NData": nd, "NXml": nx, "holds": ok, "states": r["distinct"]})
+        if ok != expect_ok:
+            raise vlib.ToolError(f"RefinalizeSpec: mode '{mode}' expected {'to hold' if expect_ok else 'to be violated'} but TLC says otherwise")
+        v.add(states=r["distinct"], transitions=r["generated"])
     v.cov["crash_model"] = mc
     log(f"[C15] (A) CrashSpec: invariant holds for the protocol as built, violated for the two seeded protocol variants ({len(mc)} TLC runs)")
     ps = c15_programs(seed, tier)
